@@ -575,6 +575,8 @@ static Space make_space(const std::string& id) {
     S.key_last = (id == "c12");  // registry code is where call-order state would live: C12 keeps states apart by their last operation; C16 (misuse from every visible state) uses the plain observation
     if (id == "c16" || id == "c12x") {  // misuse operations from every state
       for (int r = 0; r < 2; r++) { S.ops.push_back(opSel(r, "nosuch")); S.ops.push_back(opInit(r, "c", "no_such_solution")); S.ops.push_back(opInit(r, "a", "euler_1dd")); }
+      // printf conversion specifications inside unknown handles and names (the text of a caller's string must never become a format)
+      for (int r = 0; r < 2; r++) { S.ops.push_back(opSel(r, "run%s%s%n%s")); S.ops.push_back(opInit(r, "c%n%s", "no_%s%s%n_such")); }
       // one-character substitutions of a catalogue name (first, middle, last position): same length, all but one character right
       for (int r = 0; r < 2; r++) for (const char* bad : {"xuler_1d", "eulxr_1d", "euler_1x"}) S.ops.push_back(opInit(r, "c", bad));
       // a handle spelled like the catalogue name of a solution some handle may hold: unknown handle while unregistered (fatal), an ordinary handle once registered (thorough)
@@ -601,7 +603,7 @@ static Space make_space(const std::string& id) {
     // handle names whose order differs between comparators (lexicographic, natural/numeric, case-insensitive): re-initialisation and
     // selection must find the entry whatever the registry's internal order
     S.solutions = {"euler_1d", "heateq_2d_steady_const"}; S.key_last = false;
-    for (const char* h : {"h2", "h10", "h3", "H3"}) { S.ops.push_back(opInit(0, h, "euler_1d")); S.ops.push_back(opSel(0, h)); }
+    for (const char* h : {"h2", "h10", "h3", "H3", "h1", ""}) { S.ops.push_back(opInit(0, h, "euler_1d")); S.ops.push_back(opSel(0, h)); }  // h1 and the empty handle are prefixes of others
     S.ops.push_back(opInit(0, "h3", "heateq_2d_steady_const")); S.ops.push_back(opInit(0, "h10", "heateq_2d_steady_const"));
     S.ops.push_back(opSet(0, "u_0", 7.5L)); S.ops.push_back(mk(GETNAME, 0)); S.ops.push_back(mk(LIST, 0));
   } else if (id == "c16v") {
@@ -693,6 +695,7 @@ static Space make_space(const std::string& id) {
       S.ops.push_back(opInit(0, "a", "euler_1d", c)); if (c || g_tier) S.ops.push_back(opInit(0, "r", "radiation_integrated_intensity", c));
       S.ops.push_back(opSel(0, "a", c)); if (c) S.ops.push_back(opSel(0, "r", c));
       S.ops.push_back(opSet(0, "u_0", 7.5L, c)); if (c) S.ops.push_back(opGet(0, "u_0", c)); if (c) S.ops.push_back(opGet(0, "nosuch", c));
+      if (c) { S.ops.push_back(opGet(0, "u_0\xc2\xb0", c)); S.ops.push_back(opSet(0, "u_0\xe9", 3.25L, c)); S.ops.push_back(opGetVec(0, "vec_mean\xe2\x80\x8b", c)); }  // a registered name followed by a non-ASCII byte is another (unknown) name
       if (c) { S.ops.push_back(mk(PURGE, 0, c)); S.ops.push_back(mk(INITPARAM, 0, c)); S.ops.push_back(mk(SANITY, 0, c)); S.ops.push_back(mk(GETNAME, 0, c)); S.ops.push_back(mk(GETDIM, 0, c)); S.ops.push_back(mk(DISPLAY, 0, c)); S.ops.push_back(mk(DISPLAYVEC, 0, c)); S.ops.push_back(mk(LIST, 0, c)); }
       else { S.ops.push_back(mk(PURGE, 0, c)); S.ops.push_back(mk(INITPARAM, 0, c)); }
       if (c) { S.ops.push_back(opSetVec(0, "vec_mean", 3, c)); S.ops.push_back(opSetVec(0, "vec_mean", 0, c)); S.ops.push_back(opGetVec(0, "vec_mean", c)); S.ops.push_back(opGetVec(0, "nosuch", c)); } else S.ops.push_back(opGetVec(0, "vec_mean", c));
